@@ -15,7 +15,7 @@ import ast
 from dataclasses import dataclass
 from typing import Any, Callable
 
-from ..astutil import (ERROR_CLASSES, Locals, call_name, calls_in, error_names, local_names, names_in, norm, region, returns_error,
+from ..astutil import (ERROR_CLASSES, Locals, call_name, calls_in, constructs_error, error_names, local_names, names_in, norm, region, returns_error,
                        short, where)
 from ..cfg import walk_own
 from ..core import AnalysisError, Report
@@ -357,6 +357,94 @@ def _chain(e: ast.Compare, val: Callable[[ast.expr], Any]) -> "bool | None":
     return res
 
 
+def _error_test(e: ast.expr) -> "str | None":
+    """the local that `isinstance(<local>, <error class(es)>)` asks about (also when the test binds it: `isinstance(x := f(), E)`)"""
+    if isinstance(e, ast.Call) and call_name(e) == "isinstance" and len(e.args) == 2:
+        a = e.args[0]
+        while isinstance(a, ast.NamedExpr):
+            a = a.target
+        if isinstance(a, ast.Name) and any(k in ERROR_CLASSES for k in _class_names(e.args[1])):
+            return a.id
+    return None
+
+
+def error_locals(fn: ast.AST) -> set[str]:
+    """astutil.error_names, indifferent to how the local is bound: assignment, annotated assignment or assignment expression from an
+    error constructor, or asked about by an isinstance test for an error class (wherever the test binds it)"""
+    out = set(error_names(fn))
+    for n in ast.walk(fn):
+        if isinstance(n, (ast.NamedExpr, ast.AnnAssign)) and isinstance(n.target, ast.Name) and n.value is not None and constructs_error(n.value):
+            out.add(n.target.id)
+        elif isinstance(n, ast.Call):
+            x = _error_test(n)
+            if x is not None:
+                out.add(x)
+    return out
+
+
+def _narrowed(test: ast.expr, taken: bool, st: State, depth: int = 0) -> dict[str, bool]:
+    """what taking this arm of the test says about locals being an error value: {local: is an error}"""
+    if isinstance(test, ast.UnaryOp) and isinstance(test.op, ast.Not):
+        return _narrowed(test.operand, not taken, st, depth)
+    if isinstance(test, ast.BoolOp) and (isinstance(test.op, ast.And) == taken):
+        out: dict[str, bool] = {}
+        for v in test.values:
+            out.update(_narrowed(v, taken, st, depth))
+        return out
+    if isinstance(test, ast.NamedExpr):
+        return _narrowed(test.value, taken, st, depth)
+    if isinstance(test, ast.Name) and depth < 2 and isinstance(st.get(("v", test.id)), ast.expr) and not isinstance(st[("v", test.id)], ast.Name):
+        return _narrowed(st[("v", test.id)], taken, st, depth + 1)   # a condition held in a local
+    x = _error_test(test) if isinstance(test, ast.expr) else None
+    return {x: taken} if x is not None else {}
+
+
+def path_error_facts(p: Path) -> dict[str, bool]:
+    """{local: holds an error value} at the end of the path, as far as the path itself says: bound to an error constructor / to a
+    local known to hold one, or narrowed by the arm of an isinstance(<local>, <error class>) test that the path took; a later
+    binding to something else forgets it"""
+    facts: dict[str, bool] = {}
+
+    def bind(t: ast.AST, v: "ast.AST | None") -> None:
+        if isinstance(t, ast.Name):
+            facts.pop(t.id, None)
+            if v is not None and constructs_error(v):
+                facts[t.id] = True
+            elif isinstance(v, ast.Name) and v.id in facts:
+                facts[t.id] = facts[v.id]
+        elif isinstance(t, (ast.Tuple, ast.List)):
+            for x in t.elts:
+                bind(x.value if isinstance(x, ast.Starred) else x, None)
+
+    for ev in p.events:
+        n = ev.node
+        if ev.kind == "stmt":
+            if isinstance(n, ast.Assign):
+                for t in n.targets:
+                    bind(t, n.value)
+            elif isinstance(n, (ast.AnnAssign, ast.AugAssign)):
+                bind(n.target, n.value if isinstance(n, ast.AnnAssign) else None)
+        for w in (walk_own(n) if isinstance(n, ast.stmt) else ast.walk(n)):
+            if isinstance(w, ast.NamedExpr):
+                bind(w.target, w.value)
+        if ev.kind == "test" and ev.taken is not None and isinstance(n, ast.expr):
+            facts.update(_narrowed(n, ev.taken, ev.state))
+    return facts
+
+
+def path_returns_error(p: Path, err_names: set[str]) -> bool:
+    """the path ends by returning an error: the returned expression constructs one, or it is (a tuple with) a local that holds one on
+    this path; a local the path says nothing about counts when the function narrows it to an error class somewhere (err_names)"""
+    s = p.end
+    if not isinstance(s, ast.Return) or s.value is None:
+        return False
+    if constructs_error(s.value):
+        return True
+    facts = path_error_facts(p)
+    cands = [s.value] + (list(s.value.elts) if isinstance(s.value, ast.Tuple) else [])
+    return any(isinstance(c, ast.Name) and facts.get(c.id, c.id in err_names) for c in cands)
+
+
 def _strip(e: ast.expr) -> ast.expr:
     """the collection an expression passes on unchanged: `x or []`, list(x), tuple(x), cast(T, x), (y := x)"""
     while True:
@@ -433,15 +521,60 @@ class _RenameApart(ast.NodeTransformer):
         return self.generic_visit(n)
 
 
-class _TailInliner:
-    """`return cls._second_phase(a=x, b=y)` -> `a' = x; b' = y; <body of _second_phase over a', b'>`: exact for a call in return
-    position (the helper's returns become the function's returns).  Only private helpers of the function's region are inlined
-    (astutil.region), only when every parameter can be bound; the helper's parameters and locals are renamed apart, so nothing
-    depends on the two pieces using the same or different spellings."""
+def region_any(ix: Any, f: FuncInfo, depth: int = 2) -> list[FuncInfo]:
+    """astutil.region, whatever the receiver of the call is spelt like (`<expression>._helper(...)`): a private function or method
+    of the same module counts when it is the only one of its name there"""
+    out = list(region(ix, f, depth))
+    seen = {g.qual for g in out}
+    frontier = list(out)
+    for _ in range(depth):
+        nxt: list[FuncInfo] = []
+        for g in frontier:
+            for c in calls_in(g.node):
+                last = c.func.attr if isinstance(c.func, ast.Attribute) else c.func.id if isinstance(c.func, ast.Name) else ""
+                if not last.startswith("_") or last.startswith("__"):
+                    continue
+                cands = [h for h in ix.all_functions if h.name == last and h.module is g.module]
+                if len(cands) == 1 and cands[0].qual not in seen:
+                    seen.add(cands[0].qual)
+                    out.append(cands[0])
+                    nxt.append(cands[0])
+        frontier = nxt
+    return out
+
+
+def _returns_in(s: ast.AST) -> bool:
+    todo = [s]
+    while todo:
+        n = todo.pop()
+        if isinstance(n, ast.Return):
+            return True
+        if n is not s and isinstance(n, (ast.FunctionDef, ast.AsyncFunctionDef, ast.ClassDef, ast.Lambda)):
+            continue
+        todo += list(ast.iter_child_nodes(n))
+    return False
+
+
+class _Inliner:
+    """A function with the private helpers of its region written out in place - extracting a helper moves code, not behaviour, so
+    roles and paths are looked for in the function *as if it had not been cut into pieces*:
+
+    * `return cls._second_phase(a=x, b=y)` (or `r = helper(...)` directly followed by `return r`) -> `a' = x; b' = y; <body of the
+      helper over a', b'>`: exact for a call in return position (the helper's returns become the function's returns);
+    * any other call of a helper that the statement evaluates unconditionally (the value of an assignment, the test of an `if`,
+      an argument, the receiver of a method call, ...) -> the helper's body before the statement, every `return v` of it rewritten
+      to `returned' = v` with the statements after it moved into the arms that go on (no early exit is left), and `returned'`
+      in place of the call.  A helper with a return inside a loop / try / with is left alone.
+
+    Only private helpers of the function's region are inlined (region_any), only when every parameter can be bound (the receiver
+    of a method call is its `self`); the helper's parameters and locals are renamed apart, so nothing depends on the pieces
+    using the same or different spellings."""
+
+    MAX_STMTS = 400
 
     def __init__(self, ix: Any, f: FuncInfo, depth: int = 2):
         self.f = f
-        self.helpers = {h.name: h for h in region(ix, f, depth)[1:]}
+        self.helpers = {h.name: h for h in region_any(ix, f, depth)[1:]}
         self.depth = depth
         self.n = 0
 
@@ -475,6 +608,7 @@ class _TailInliner:
                     out += got
                     skip = True
                     continue
+            out += self._hoist(s, stack)
             if not isinstance(s, (ast.FunctionDef, ast.AsyncFunctionDef, ast.ClassDef)):
                 for fld in ("body", "orelse", "finalbody"):
                     sub = getattr(s, fld, None)
@@ -487,14 +621,105 @@ class _TailInliner:
             out.append(s)
         return out
 
-    def _expand(self, s: ast.Return, c: ast.Call, stack: tuple[str, ...]) -> "list[ast.stmt] | None":
+    # -- calls in other than return position ---------------------------------------------------------------------------------------
+    def _unconditional(self, node: ast.AST, only: "tuple[str, ...] | None", out: list[tuple[ast.AST, str, "int | None", ast.Call]]) -> None:
+        """the outermost helper calls that evaluating `node` always evaluates, in order: (parent, field, index, call)"""
+        for fld, val in ast.iter_fields(node):
+            if only is not None and fld not in only:
+                continue
+            for i, ch in enumerate(val if isinstance(val, list) else [val]):
+                if not isinstance(ch, ast.AST):
+                    continue
+                if (isinstance(node, ast.IfExp) and fld in ("body", "orelse")) or (isinstance(node, ast.BoolOp) and fld == "values" and i > 0):
+                    continue   # evaluated on some paths only
+                if isinstance(node, ast.Compare) and fld == "comparators" and i > 0:
+                    continue
+                if isinstance(ch, (ast.Lambda, ast.ListComp, ast.SetComp, ast.DictComp, ast.GeneratorExp, ast.FunctionDef, ast.AsyncFunctionDef,
+                                   ast.ClassDef, ast.Await, ast.Yield, ast.YieldFrom)):
+                    continue
+                if isinstance(node, ast.stmt) and isinstance(ch, (ast.stmt, ast.ExceptHandler, ast.match_case)):
+                    continue   # nested blocks are statements of their own
+                if isinstance(ch, ast.Call) and self._helper_of(ch) is not None:
+                    out.append((node, fld, i if isinstance(val, list) else None, ch))
+                    continue
+                self._unconditional(ch, None, out)
+
+    def _helper_of(self, c: ast.Call) -> "FuncInfo | None":
+        last = c.func.attr if isinstance(c.func, ast.Attribute) else c.func.id if isinstance(c.func, ast.Name) else ""
+        return self.helpers.get(last)
+
+    def _hoist(self, s: ast.stmt, stack: tuple[str, ...]) -> list[ast.stmt]:
+        if isinstance(s, (ast.FunctionDef, ast.AsyncFunctionDef, ast.ClassDef, ast.While, ast.Try, ast.Match)):
+            return []
+        only = ("test",) if isinstance(s, ast.If) else ("iter",) if isinstance(s, (ast.For, ast.AsyncFor)) else \
+            ("items",) if isinstance(s, (ast.With, ast.AsyncWith)) else None
+        found: list[tuple[ast.AST, str, "int | None", ast.Call]] = []
+        self._unconditional(s, only, found)
+        pre: list[ast.stmt] = []
+        for parent, fld, i, call in found:
+            got = self._expand_value(s, call, stack)
+            if got is None:
+                continue
+            stmts, res = got
+            pre += stmts
+            name = ast.copy_location(ast.Name(id=res, ctx=ast.Load()), call)
+            if i is None:
+                setattr(parent, fld, name)
+            else:
+                getattr(parent, fld)[i] = name
+        return pre
+
+    def _structured(self, stmts: list[ast.stmt], res: str, budget: list[int]) -> "list[ast.stmt] | None":
+        """the statements with every `return v` rewritten to `res = v` and nothing executed after it"""
         import copy
 
-        cn = call_name(c)
-        last = cn.rsplit(".", 1)[-1]
-        head = cn.rsplit(".", 1)[0] if "." in cn else ""
-        h = self.helpers.get(last)
-        if h is None or last in stack or len(stack) > self.depth or isinstance(h.node, ast.AsyncFunctionDef):
+        out: list[ast.stmt] = []
+        for i, s in enumerate(stmts):
+            budget[0] -= 1
+            if budget[0] < 0:
+                return None
+            if isinstance(s, ast.Return):
+                v = copy.deepcopy(s.value) if s.value is not None else ast.Constant(value=None)
+                out.append(ast.copy_location(ast.Assign(targets=[ast.Name(id=res, ctx=ast.Store())], value=v), s))
+                return out
+            if not _returns_in(s):
+                out.append(copy.deepcopy(s))
+                continue
+            if isinstance(s, ast.If):
+                rest = list(stmts[i + 1:])
+                a, b = self._structured(list(s.body) + rest, res, budget), self._structured(list(s.orelse) + rest, res, budget)
+                if a is None or b is None:
+                    return None
+                out.append(ast.copy_location(ast.If(test=copy.deepcopy(s.test), body=a, orelse=b), s))
+                return out
+            return None
+        anchor = stmts[-1] if stmts else self.f.node
+        out.append(ast.copy_location(ast.Assign(targets=[ast.Name(id=res, ctx=ast.Store())], value=ast.Constant(value=None)), anchor))
+        return out
+
+    def _expand_value(self, s: ast.stmt, c: ast.Call, stack: tuple[str, ...]) -> "tuple[list[ast.stmt], str] | None":
+        got = self._prepare(s, c, stack)
+        if got is None:
+            return None
+        h, new, ren, suffix, last = got
+        res = f"returned{suffix}"
+        body = self._structured(list(h.node.body), res, [self.MAX_STMTS])
+        if body is None:
+            self.n -= 1
+            return None
+        new += [ren.visit(st) for st in body]
+        return self._block(new, stack + (last,)), res
+
+    # -- binding the helper's parameters ---------------------------------------------------------------------------------------------
+    def _prepare(self, s: ast.stmt, c: ast.Call, stack: tuple[str, ...]) -> "tuple[FuncInfo, list[ast.stmt], _RenameApart, str, str] | None":
+        import copy
+
+        h = self._helper_of(c)
+        if h is None:
+            return None
+        last = h.name
+        head = norm(c.func.value) if isinstance(c.func, ast.Attribute) else ""
+        if last in stack or len(stack) > self.depth or isinstance(h.node, ast.AsyncFunctionDef):
             return None
         a = h.node.args
         if a.vararg or a.kwarg or any(isinstance(x, ast.Starred) for x in c.args) or any(k.arg is None for k in c.keywords):
@@ -510,15 +735,18 @@ class _TailInliner:
                 bound[p.arg] = d
         pos = [p.arg for p in allpos]
         keep: set[str] = set()
+        plain_class = isinstance(c.func, ast.Attribute) and (dotted(c.func.value) or "")[:1].isupper()
         if h.kind in ("method", "classmethod", "property") and pos:
             implicit, pos = pos[0], pos[1:]
             if head == implicit:
                 keep.add(implicit)          # self._h(...) / cls._h(...): the same object under the same name
-            elif h.kind == "classmethod" and head[:1].isupper():
-                bound[implicit] = ast.parse(head, mode="eval").body
+            elif h.kind == "classmethod" and plain_class:
+                bound[implicit] = c.func.value  # type: ignore[union-attr]
+            elif h.kind == "method" and isinstance(c.func, ast.Attribute) and not plain_class:
+                bound[implicit] = c.func.value   # <expression>._h(...): the receiver is the method's `self`
             else:
                 return None
-        elif head not in ("",) and not head[:1].isupper() and head not in ("self", "cls"):
+        elif h.kind == "function" and head:
             return None
         if len(c.args) > len(pos):
             return None
@@ -532,20 +760,29 @@ class _TailInliner:
         if any(p not in bound and p not in keep for p in every):
             return None
         self.n += 1
-        suffix = f"·{self.n}"   # a middle dot is a legal identifier character that no hand-written local uses
+        suffix = f"\u00b7{self.n}"   # a middle dot is a legal identifier character that no hand-written local uses
         ren = _RenameApart((local_names(h.node) | every) - keep, suffix)
         new: list[ast.stmt] = []
         for p_ in [x for x in [*[q.arg for q in allpos], *[q.arg for q in a.kwonlyargs]] if x in bound and x not in keep]:
             new.append(ast.copy_location(ast.Assign(targets=[ast.Name(id=p_ + suffix, ctx=ast.Store())], value=copy.deepcopy(bound[p_])), s))
+        return h, new, ren, suffix, last
+
+    def _expand(self, s: ast.Return, c: ast.Call, stack: tuple[str, ...]) -> "list[ast.stmt] | None":
+        import copy
+
+        got = self._prepare(s, c, stack)
+        if got is None:
+            return None
+        h, new, ren, _, last = got
         new += [ren.visit(copy.deepcopy(st)) for st in h.node.body]
         new.append(ast.copy_location(ast.Return(value=None), s))
         return self._block(new, stack + (last,))
 
 
 def inline_tail_calls(ix: Any, f: FuncInfo) -> ast.AST:
-    """f's definition with the private helpers it hands over to in return position written out in place (f.node itself when there is
-    none)"""
-    return _TailInliner(ix, f).run()
+    """f's definition with the private helpers of its region written out in place (f.node itself when there is none); the name is
+    historical: calls in return position were the first to be written out"""
+    return _Inliner(ix, f).run()
 
 
 # =====================================================================================================================
@@ -597,7 +834,7 @@ class _Builder:
             self.params |= {nm for nm, ds in self.lc.defs.items() if ds and all(k == "assign" and isinstance(v, ast.Name) and v.id in self.params
                                                                              for k, _, v in ds)}
         self.helpers = {h.name: h for h in region(ix, f)[1:]}
-        self.err = error_names(self.fn)
+        self.err = error_locals(self.fn)
         # E: the schema's enum list; L: the list without nulls; T: the set of member types; ty: the single member type
         self.E = self._closure(lambda v: self._enum_read(_strip(v)))
         self.filters = _filters_over(self.fn, self.is_E)
@@ -635,6 +872,7 @@ class _Builder:
         # the member table being built (the `values=` argument of the construction); it maps names to values when the class
         # declares `values` as a dict
         self.tables = {kw.value.id for c in self.ctors for kw in c.keywords if kw.arg == "values" and isinstance(kw.value, ast.Name)}
+        self.tables |= self._closure(lambda v: False, set(self.tables))   # ... and the locals that only stand for it (a helper's parameter)
         fld = ix.find_field(ix.cls(cls_name), "values")
         self.mapping = fld is not None and fld[1] is not None and norm(fld[1]).lower().startswith(("dict", "mapping", "typing.dict"))
 
@@ -783,6 +1021,17 @@ class _Builder:
                     return sc.get("A")
                 if x in self.conv and set(kinds) & ERROR_CLASSES:
                     return sc.get("D")
+            if isinstance(e, ast.Call) and call_name(e) == "isinstance" and len(e.args) == 2 and set(_class_names(e.args[1])) & ERROR_CLASSES:
+                # whatever the local is called and however far the value has travelled (helper results, aliases): what it holds on
+                # THIS path decides - the result of convert_value is an error exactly in the scenario of a rejected default, an object
+                # the builder has just made (a constructor, evolve of one) is none
+                r = sim.resolve(e.args[0], st)
+                if isinstance(r, ast.Call):
+                    if isinstance(r.func, ast.Attribute) and r.func.attr == "convert_value":
+                        return sc.get("D")
+                    last = call_name(r).rsplit(".", 1)[-1]
+                    if last in ("evolve", "cls") or (last not in ERROR_CLASSES and any(k.name == last for k in self.ix.classes.values())):
+                        return False
             return None
 
         def none_of(e: ast.expr, st: State, sim: PathSim) -> "bool | None":
@@ -821,7 +1070,7 @@ class _Builder:
             return "fall"
         if isinstance(s, ast.Raise):
             return "raise"
-        if returns_error(s, self.err):
+        if path_returns_error(p, self.err):
             return "error"
         assert isinstance(s, ast.Return)
         v = s.value
@@ -1106,7 +1355,7 @@ class _Merge:
         return bool(names_in(t) & (self.locals | set(self.p))) or _private_call(t)
 
     def is_error(self, p: Path) -> bool:
-        return p.end is not None and (isinstance(p.end, ast.Raise) or returns_error(p.end, self.err))
+        return p.end is not None and (isinstance(p.end, ast.Raise) or path_returns_error(p, self.err))
 
     def result_base(self, p: Path, sim: PathSim) -> "tuple[int | None, int | None, int | None]":
         """(side of the property the result is built from, side its `values` come from, side its `class_info` comes from)"""
